@@ -159,8 +159,9 @@ class Pseudo2NetCDF:
             # in-memory masked target keeps the mask
             nvar[:] = pvar[...]
         elif isinstance(pvar[...], MaskedArray):
-            nvar[:] = pvar[...].filled(getattr(nvar, 'fill_value', getattr(
-                nvar, '_FillValue', getattr(pvar, 'missing_value', -9999))))
+            # masked cells must hold the value the file declares as _FillValue
+            nvar[:] = pvar[...].filled(getattr(nvar, '_FillValue', getattr(
+                nvar, 'fill_value', getattr(pvar, 'missing_value', -9999))))
         else:
             nvar[:] = pvar[...]
 
